@@ -2,6 +2,7 @@
    Translator: harness/pygen.py (Python AST -> Lean `do` block, fails closed).  The equality with the hand
    written model is proved in the Props file that imports this module. -/
 import I2N.Model.Transfer
+import I2N.Model.Rules
 namespace I2N.Extracted.GenTransfer
 open I2N.Transfer
 
@@ -156,6 +157,100 @@ def genUploadLink (cache : Path) (pool : Path) : M (Unit) := do
            raise ValueError('Cannot upload a symlink to its destination')
        else:
            TransferOps.upload_local(cache_path, pool_path, params)
+-/
+
+/-- `hosts, path = pool_path.split(":")` on the model's own splitter -/
+def splitColonStr (s : String) : List String := (splitColon s.toList).map String.ofList
+/-- `s.replace(c, "")` -/
+def pyRemoveChar (c : Char) (s : String) : String := String.ofList (s.toList.filter (· != c))
+/-- `cls.<op>_remote(...)`: remote transfers are outside the model -/
+def remoteM : M Unit := throw Err.notModelled
+
+/-- `TransferOps.download`: `hosts:path`, a `;` in the path selects link mode (here `pool` is the whole location string) -/
+def genDownload (cache : Path) (pool : Path) : M (Unit) := do
+  let mut hosts : String := ""
+  let mut path : String := ""
+  match (splitColonStr pool) with
+  | [pyPart1_1, pyPart1_2] =>
+    hosts := pyPart1_1
+    path := pyPart1_2
+  | _ => throw Err.valueError
+  if (!(hosts == "")) then
+    remoteM
+  else if (I2N.Rules.isSubstr ";" path) then
+    genDownloadLink cache (pyRemoveChar ';' path)
+  else
+    genDownloadLocal cache path
+  return ()
+
+/- the Python it was generated from (comments and docstring dropped):
+   @classmethod
+   def download(cls, cache_path: str, pool_path: str, params: Params) -> None:
+       hosts, path = pool_path.split(':')
+       if hosts != '':
+           cls.download_remote(cache_path, pool_path, params)
+       elif ';' in path:
+           cls.download_link(cache_path, path.replace(';', ''), params)
+       else:
+           cls.download_local(cache_path, path, params)
+-/
+
+/-- `TransferOps.upload`: `hosts:path`, a `;` in the path selects link mode (here `pool` is the whole location string) -/
+def genUpload (cache : Path) (pool : Path) : M (Unit) := do
+  let mut hosts : String := ""
+  let mut path : String := ""
+  match (splitColonStr pool) with
+  | [pyPart1_1, pyPart1_2] =>
+    hosts := pyPart1_1
+    path := pyPart1_2
+  | _ => throw Err.valueError
+  if (!(hosts == "")) then
+    remoteM
+  else if (I2N.Rules.isSubstr ";" path) then
+    genUploadLink cache (pyRemoveChar ';' path)
+  else
+    genUploadLocal cache path
+  return ()
+
+/- the Python it was generated from (comments and docstring dropped):
+   @classmethod
+   def upload(cls, cache_path: str, pool_path: str, params: Params) -> None:
+       hosts, path = pool_path.split(':')
+       if hosts != '':
+           cls.upload_remote(cache_path, pool_path, params)
+       elif ';' in path:
+           cls.upload_link(cache_path, path.replace(';', ''), params)
+       else:
+           cls.upload_local(cache_path, path, params)
+-/
+
+/-- `TransferOps.delete`: `hosts:path`, a `;` in the path selects link mode (here `pool` is the whole location string) -/
+def genDelete (pool : Path) : M (Unit) := do
+  let mut hosts : String := ""
+  let mut path : String := ""
+  match (splitColonStr pool) with
+  | [pyPart1_1, pyPart1_2] =>
+    hosts := pyPart1_1
+    path := pyPart1_2
+  | _ => throw Err.valueError
+  if (!(hosts == "")) then
+    remoteM
+  else if (I2N.Rules.isSubstr ";" path) then
+    genDeleteLocal (pyRemoveChar ';' path)
+  else
+    genDeleteLocal path
+  return ()
+
+/- the Python it was generated from (comments and docstring dropped):
+   @classmethod
+   def delete(cls, pool_path: str, params: Params) -> None:
+       hosts, path = pool_path.split(':')
+       if hosts != '':
+           cls.delete_remote(pool_path, params)
+       elif ';' in path:
+           cls.delete_link(path.replace(';', ''), params)
+       else:
+           cls.delete_local(path, params)
 -/
 
 end I2N.Extracted.GenTransfer
